@@ -417,3 +417,51 @@ for _sfx in ("", "_async"):
             c.ensures("completes", lambda r: z3.BoolVal(True))
             c.replay("code", code=REPLAY_ITEM)
     _mkgi(_sfx)
+
+# ---- the translate tag's own helpers (the node itself is outside the node-layer escape lemma:
+# ---- class-level NullTranslations instance): whatever values the tag's arguments evaluate to,
+# ---- resolving the message context and the count lets only Liquid errors out
+
+_TTAG = "liquid.extra.tags.translate_tag"
+
+REPLAY_TRANSLATE_ARGS = r'''
+def run(m):
+    import asyncio
+    from liquid import Environment
+    from liquid.exceptions import LiquidError
+    env = Environment(extra=True)
+    bad = []
+    for src in ("{% translate context: h %}x{% endtranslate %}", "{% translate count: h %}x{% plural %}y{% endtranslate %}", "{% translate context: h, count: h %}x{% plural %}y{% endtranslate %}"):
+        for h in (10**5000, -10**5000, 1.5, [1], {"a": 1}, None, True, "c"):
+            t = env.from_string(src)
+            for f in (lambda: t.render(h=h), lambda: asyncio.run(t.render_async(h=h))):
+                try:
+                    f()
+                except LiquidError:
+                    pass
+                except BaseException as ex:
+                    bad.append((src, type(h).__name__, type(ex).__name__))
+    return {"violated": bool(bad), "observed": bad[:4], "witness": "translate-tag-argument-value"}
+'''
+
+for _helper in ("resolve_message_context", "resolve_count"):
+    def _mkhelper(helper):
+        @contract(f"{_TTAG}:TranslateNode.{helper}", prop="C02", name=f"translate-tag.{helper}[any argument value: only Liquid errors]")
+        def th(c):
+            std_globals(c)
+            v = c.any("argument_value")
+            json_like(c, v)
+            given = c.bool("argument_given")
+            self = c.obj(_TTAG + ":TranslateNode", "node", message_count_var=const("count"), message_context_var=const("context"), token=NONE)
+
+            def entry(eng, cc, func):
+                outs = []
+                for s, g in eng.branch(cc.st, given.t):
+                    key = "count" if helper == "resolve_count" else "context"
+                    scope = s.alloc(HDict(items={key: v} if g else {}))
+                    outs.extend(eng.run(func, s, [c.any("context"), scope], {}, self_val=self))
+                return outs
+            c.entry = entry
+            c.raises("LiquidError")
+            c.replay("code", code=REPLAY_TRANSLATE_ARGS)
+    _mkhelper(_helper)
